@@ -6,6 +6,8 @@ package cmd
 import (
 	"errors"
 	"fmt"
+	"os"
+	"path/filepath"
 	"regexp"
 	"strconv"
 	"strings"
@@ -52,8 +54,39 @@ func resetIndex(rootGoitPath string, logRecord *store.LogRecord, index *store.In
 	return nil
 }
 
-func resetWorkingTree(rootGoitPath string, index *store.Index) error {
+// clearWay removes what stands where the file of the snapshot has to be written, as far as it was tracked
+// before the reset: a tracked file in the place of one of its directories (the path was a file in the
+// commit left behind and is a directory in the target), or the tracked files of a directory that has the
+// name of the file. Untracked files are never removed; if one is in the way, writing the file fails.
+func clearWay(rootGoitPath, path string, trackedBefore map[string]bool) {
+	rootDir := filepath.Dir(rootGoitPath)
+	for dir := filepath.Dir(path); dir != "." && dir != "/"; dir = filepath.Dir(dir) {
+		if info, err := os.Lstat(filepath.Join(rootDir, dir)); err == nil && !info.IsDir() && trackedBefore[filepath.ToSlash(dir)] {
+			os.Remove(filepath.Join(rootDir, dir))
+		}
+	}
+	if info, err := os.Lstat(filepath.Join(rootDir, path)); err != nil || !info.IsDir() {
+		return
+	}
+	for tracked := range trackedBefore {
+		if !strings.HasPrefix(tracked, path+"/") {
+			continue
+		}
+		os.Remove(filepath.Join(rootDir, tracked))
+		// the directories that are empty now (Remove refuses the others)
+		for dir := filepath.Dir(tracked); len(dir) >= len(path); dir = filepath.Dir(dir) {
+			if os.Remove(filepath.Join(rootDir, dir)) != nil {
+				break
+			}
+		}
+	}
+	// an empty directory holds nothing that could be lost
+	os.Remove(filepath.Join(rootDir, path))
+}
+
+func resetWorkingTree(rootGoitPath string, index *store.Index, trackedBefore map[string]bool) error {
 	for _, entry := range index.Entries {
+		clearWay(rootGoitPath, string(entry.Path), trackedBefore)
 		obj, err := object.GetObject(rootGoitPath, entry.Hash)
 		if err != nil {
 			return fmt.Errorf("fail to get object: %w", err)
@@ -108,6 +141,12 @@ var resetCmd = &cobra.Command{
 			return fmt.Errorf("fail to get log record: %w", err)
 		}
 
+		// what is tracked now may be removed from the working tree by --hard where it is in the way
+		trackedBefore := make(map[string]bool, len(client.Idx.Entries))
+		for _, entry := range client.Idx.Entries {
+			trackedBefore[string(entry.Path)] = true
+		}
+
 		// reset HEAD
 		if isSoft || isMixed || isHard {
 			if err := resetHead(args[0], client.RootGoitPath, logRecord, client.Head, client.Refs, client.Conf); err != nil {
@@ -124,7 +163,7 @@ var resetCmd = &cobra.Command{
 
 		// reset working tree
 		if isHard {
-			if err := resetWorkingTree(client.RootGoitPath, client.Idx); err != nil {
+			if err := resetWorkingTree(client.RootGoitPath, client.Idx, trackedBefore); err != nil {
 				return fmt.Errorf("fail to reset working tree: %w", err)
 			}
 		}
